@@ -62,7 +62,13 @@ func (lifecycle *Lifecycle) Error(e ...error) {
 
 // Errors return lifecycle error array
 func (lifecycle *Lifecycle) Errors() []error {
-	return goaterr.AppendError(lifecycle.errors, lifecycle.ctx.Err())
+	// a copy taken under the mutex: Error may append concurrently (a producer that is still
+	// running after a kill), and the result must not share the list's backing array
+	lifecycle.mutex.Lock()
+	errs := make([]error, len(lifecycle.errors), len(lifecycle.errors)+1)
+	copy(errs, lifecycle.errors)
+	lifecycle.mutex.Unlock()
+	return goaterr.AppendError(errs, lifecycle.ctx.Err())
 }
 
 // Step return lifecycle step
